@@ -1,4 +1,5 @@
 From Coq Require Import Extraction ExtrOcamlBasic.
-From Oxia.Shard Require Import Model Status.
+From Oxia.Shard Require Import Model Status Dispatcher.
 Extraction "shard_model.ml" generate_shards chainedb route client_update
-  apply_scripted delete_shard_metadata update_shard_metadata compute_assignments init_status.
+  apply_scripted delete_shard_metadata update_shard_metadata compute_assignments init_status
+  dstep dinit.
